@@ -38,7 +38,7 @@ class YowGroupsProtocolLayer(YowProtocolLayer):
             elif entity.__class__ == CreateGroupsIqProtocolEntity:
                 self._sendIq(entity, self.onCreateGroupSuccess, self.onCreateGroupFailed)
             elif entity.__class__ == ParticipantsGroupsIqProtocolEntity:
-                self._sendIq(entity, self.onGetParticipantsResult)
+                self._sendIq(entity, self.onGetParticipantsResult, self.onGetParticipantsFailed)
             elif entity.__class__ == AddParticipantsIqProtocolEntity:
                 self._sendIq(entity, self.onAddParticipantsSuccess, self.onAddParticipantsFailed)
             elif entity.__class__ == PromoteParticipantsIqProtocolEntity:
@@ -48,7 +48,7 @@ class YowGroupsProtocolLayer(YowProtocolLayer):
             elif entity.__class__ == RemoveParticipantsIqProtocolEntity:
                 self._sendIq(entity, self.onRemoveParticipantsSuccess, self.onRemoveParticipantsFailed)
             elif entity.__class__ == ListGroupsIqProtocolEntity:
-                self._sendIq(entity, self.onListGroupsResult)
+                self._sendIq(entity, self.onListGroupsResult, self.onListGroupsFailed)
             elif entity.__class__ == LeaveGroupsIqProtocolEntity:
                 self._sendIq(entity, self.onLeaveGroupSuccess, self.onLeaveGroupFailed)
             elif entity.__class__ == InfoGroupsIqProtocolEntity:
@@ -74,6 +74,9 @@ class YowGroupsProtocolLayer(YowProtocolLayer):
 
     def onGetParticipantsResult(self, node, originalIqEntity):
         self.toUpper(ListParticipantsResultIqProtocolEntity.fromProtocolTreeNode(node))
+
+    def onGetParticipantsFailed(self, node, originalIqEntity):
+        self.toUpper(ErrorIqProtocolEntity.fromProtocolTreeNode(node))
 
     def onAddParticipantsSuccess(self, node, originalIqEntity):
         logger.info("Group add participants success")
@@ -109,6 +112,9 @@ class YowGroupsProtocolLayer(YowProtocolLayer):
 
     def onListGroupsResult(self, node, originalIqEntity):
         self.toUpper(ListGroupsResultIqProtocolEntity.fromProtocolTreeNode(node))
+
+    def onListGroupsFailed(self, node, originalIqEntity):
+        self.toUpper(ErrorIqProtocolEntity.fromProtocolTreeNode(node))
 
     def onLeaveGroupSuccess(self, node, originalIqEntity):
         logger.info("Group leave success")
